@@ -376,7 +376,7 @@ func c06bigOne(c *Ctx, h *Hist, i int) {
 			q.Each(func(e he) bool { arr = append(arr, hj(e)); return true })
 			h.Emit(Ev{"op": name, "kind": "big", "arr": arr, "lastpos": last[1:], "ret": hj(ret), "rok": ok, "target": target, "len": q.Len(),
 				"dir": 1, "upd": 1, "e": [2]int{0, 0}, "i": 0, "vs": [][2]int{}, "ri": -1, "peek": [3]int{0, 0, 0}, "empty": q.IsEmpty(),
-				"front": hj(q.Front()), "moves": [][2]int{}, "out": [][2]int{}, "spare": 0, "gi": i, "gseed": int(c.Seed)})
+				"front": hj(q.Front()), "moves": [][2]int{}, "out": [][2]int{}, "spare": 0, "blind": 0, "gi": i, "gseed": int(c.Seed)})
 		}
 		vs := make([]he, n)
 		for j := range vs {
